@@ -175,6 +175,8 @@ def storeStep (ss : SS) (toks : List String) : Option (SS × String) :=
   | "cfg" :: rest => some ({ ss with cfg := cfgOf (parseKV rest) }, "ok")
   | ["dir", _] => some ({ ss with st := {}, opened := false, trace := [], known := [] }, "ok")
   | ["trace", onoff] => some ({ ss with tracing := onoff == "on" }, "ok")
+  -- the wall clock is stepped: nothing in the model depends on the time of day
+  | ["clock", _] => some (ss, "ok")
   | "keys" :: ks =>
     match ks.mapM bytesOfHex with
     | some l => some ({ ss with keys := l }, "ok")
